@@ -38,7 +38,7 @@ S2_Param == {T_AN}
 S2_Local == {T_AN, T_BN}
 S2_Helper == {T_A}
 S2_Conds == {"isi", "isn", "opq"}
-S2_Kinds == {"asg", "if", "else", "while", "brk", "meth", "call"}
+S2_Kinds == {"asg", "if", "else", "while", "brk", "meth"}
 S2t_Local == {T_BN}
 S2t_Header == {ENone, EVar("x")}
 S2t_Kinds == {"asg", "if", "else", "while", "meth"}
@@ -90,4 +90,22 @@ M_Classes == {"A", "D"}
 M_Param == {T_AD}
 M_Kinds == {"asg", "if", "while", "brk", "meth"}
 L0_Kinds == {"asg", "if", "while", "brk", "cnt", "meth"}
+\* ---- slice N0: a variable narrowed only by a TEST in an enclosing branch, a `while cond():` loop inside the branch
+\*      whose body uses it at the narrow type and then assigns it a value of (exactly) its declared, wider type
+N0_Classes == {"A"}
+N0_Param == {T_AN}
+N0_Conds == {"nn"}
+N0_Kinds == {"asg", "if", "while", "meth"}
+N0t_Param == {T_AN, T_AD}
+N0t_Conds == {"nn", "isi"}
+N0t_Kinds == {"asg", "if", "while", "meth"}
+N0t_Asg == {Asg("x", ENone), Asg("x", ENew("D")), Asg("x", ENew("A"))}
+N0_Asg == {Asg("x", ENone), Asg("x", ENew("A"))}
+\* ---- slice E0: the falsy final leaf E in unions with another class / None, used in the falsy branch
+T_ED == {"E", "D"}
+E0_Classes == {"E", "D"}
+E0_Param == {T_ED, T_EN, T_A}
+E0_Conds == {"tru", "isi"}
+E0_Kinds == {"asg", "if", "else", "meth", "call"}
+E0_Asg == {Asg("x", ENew("E")), Asg("x", ENew("D"))}
 ====
